@@ -51,20 +51,26 @@ JudgeRecord(R) ==
       impB    == Pairs(R.imports_before)
       impA    == Pairs(R.imports_after)
       \* ---- the clauses of the property
+      \* what the transcribed shapes of Edits.tla are compared with
+      plain   == [i \in DOMAIN es |-> [sl |-> es[i].sl, sc |-> es[i].sc, el |-> es[i].el, ec |-> es[i].ec, text |-> es[i].text]]
+      addr    == \A i \in DOMAIN es : es[i].mod = R.doc_mod
       range   == \A i \in DOMAIN es : InRange(T, es[i])
       order   == \A i \in DOMAIN es : StartLeEnd(es[i])
       disj    == PairwiseDisjoint(es)
-      verdictA == << <<"EditsInsideDocument", range>>, <<"StartNotAfterEnd", order>>, <<"EditsDoNotOverlap", disj>> >>
+      verdictA == << <<"EditsAddressTheDocument", addr>>, <<"EditsInsideDocument", range>>, <<"StartNotAfterEnd", order>>, <<"EditsDoNotOverlap", disj>> >>
       verdictB ==
         << <<"NoNewSyntaxError", BagLe(R.syn_after, R.syn_before)>>,
            <<"ClassImportedFromNamedModule", \E m \in targets : <<m, cls>> \in impA>>,
            <<"ClassNoLongerUnresolved", cls \notin ToSet(R.unres_after)>>,
-           <<"OtherImportsUnchanged", \E m \in targets : impB \subseteq impA /\ impA \subseteq impB \cup {<<m, cls>>}>>,
+           \* every other import entry stays; entries that named the class itself (from a module that does
+           \* not export it) may go
+           <<"OtherImportsUnchanged", \E m \in targets : /\ \A p \in impB \ impA : p[2] = cls
+                                                         /\ impA \subseteq impB \cup {<<m, cls>>}>>,
            <<"OtherToplevelsUnchanged", R.toplevels_equal>> >>
       verdict == IF R.applied THEN verdictA \o verdictB ELSE verdictA
       \* ---- binding of the specification to the harness and to the implementation's internals
       applied == IF wf THEN ApplyEdits(T, es) ELSE T
-      shapes  == {v \in FixVariants : \E m \in targets : es = Fix(T, m, cls, v)}
+      shapes  == {v \in FixVariants : \E m \in targets : plain = Fix(T, m, cls, v)}
       hB      == ParseHeader(T)
       hA      == ParseHeader(Lines(R.applied_text))
       drift ==
@@ -72,17 +78,23 @@ JudgeRecord(R) ==
            <<"EditIsATranscribedShape", shapes # {}>>,
            <<"NamedClassIsTheUnresolvedOne", R.named_cls = cls /\ targets \subseteq ToSet(R.exporters)>>,
            <<"SpecExpectationAgreesWithVerdict",
-              (wf /\ R.applied /\ R.syn_before = <<>>) =>
+              (wf /\ R.applied /\ R.syn_before = <<>> /\ addr /\ ~\E p \in impB : p[2] = cls) =>
                  ((\E m \in targets : Good(T, es, m, cls)) <=> (Select(verdict) = <<>>))>>,
            <<"ReaderAgreesBefore", R.syn_before = <<>> => (hB.ok /\ hB.table = impB)>>,
            <<"ReaderAgreesAfter", (R.applied /\ R.syn_before = <<>>) =>
                                      ((hA.ok <=> R.syn_after = <<>>) /\ (hA.ok => hA.table = impA))>> >>
   IN [failed |-> NamesOf2(Select(verdict)), drift |-> NamesOf2(Select(drift)),
-      shape |-> IF shapes = {} THEN "other" ELSE IF "glue" \in shapes THEN "glue" ELSE "newline",
+      shape |-> IF shapes = {} THEN "other" ELSE CHOOSE v \in shapes : \A w \in shapes : Len(v) <= Len(w),
       skipped |-> ""]
 
+\* A proposal without any edit for a class that an import of the document already names (from a module
+\* that does not export it) proposes nothing: there is nothing to judge.
+NothingProposed(R) == R.edits = <<>> /\ \E i \in DOMAIN R.imports_before : R.imports_before[i][2] = R.cls
+
 Verdict(R) ==
-  IF R.kind \in {"action", "completion"} THEN JudgeRecord(R)
+  IF R.kind \in {"action", "completion"} /\ NothingProposed(R)
+  THEN [failed |-> <<>>, drift |-> <<>>, shape |-> "", skipped |-> "nothing-proposed"]
+  ELSE IF R.kind \in {"action", "completion"} THEN JudgeRecord(R)
   ELSE [failed |-> <<>>, drift |-> <<>>, shape |-> "", skipped |-> R.kind]
 
 Judge == l > 0 => PrintT(<<"VERDICT", ToJson([r |-> l] @@ Verdict(Rec[l]))>>)
